@@ -79,6 +79,16 @@ pub struct ExSendError<T>(std::sync::mpsc::SendError<T>);
 
 #[verifier::external_type_specification]
 #[verifier::external_body]
+#[verifier::reject_recursive_types(T)]
+pub struct ExReceiver<T>(std::sync::mpsc::Receiver<T>);
+
+#[verifier::external_type_specification]
+#[verifier::external_body]
+#[verifier::reject_recursive_types(T)]
+pub struct ExStdMutex<T: ?Sized>(std::sync::Mutex<T>);
+
+#[verifier::external_type_specification]
+#[verifier::external_body]
 pub struct ExAddrParseError(std::net::AddrParseError);
 
 #[verifier::external_type_specification]
@@ -307,6 +317,9 @@ pub assume_specification[ std::time::Duration::from_secs ](s: u64) -> (d: std::t
 /// ASSUMPTION: binding a socket and building an address from (ip, port) have no precondition (I/O errors are an `Err`)
 pub assume_specification<A: std::net::ToSocketAddrs>[ std::net::UdpSocket::bind::<A> ](a: A) -> (r: Result<std::net::UdpSocket, std::io::Error>);
 pub assume_specification<I: Into<std::net::IpAddr>>[ <std::net::SocketAddr as From<(I, u16)>>::from ](a: (I, u16)) -> (r: std::net::SocketAddr);
+pub assume_specification[ std::net::UdpSocket::set_write_timeout ](s: &std::net::UdpSocket, d: Option<std::time::Duration>) -> (r: Result<(), std::io::Error>);
+pub assume_specification[ std::net::UdpSocket::set_read_timeout ](s: &std::net::UdpSocket, d: Option<std::time::Duration>) -> (r: Result<(), std::io::Error>);
+pub assume_specification[ std::net::UdpSocket::peer_addr ](s: &std::net::UdpSocket) -> (r: Result<std::net::SocketAddr, std::io::Error>);
 /// ASSUMPTION: `UdpSocket::send` / `send_to` have no precondition (errors are an `Err`)
 pub assume_specification[ std::net::UdpSocket::send ](s: &std::net::UdpSocket, buf: &[u8]) -> (r: Result<usize, std::io::Error>);
 pub assume_specification<A: std::net::ToSocketAddrs>[ std::net::UdpSocket::send_to::<A> ](s: &std::net::UdpSocket, buf: &[u8], a: A) -> (r: Result<usize, std::io::Error>);
